@@ -77,9 +77,8 @@ theorem modLE_raise (p : BlakeModLE.P) (h : BlakeModLE.outcome p ≠ .ok) :
 /-- non-vacuity: the default material (GPa) is accepted through the pair (λ, E) -/
 example : BlakeModLE.outcome { lame_mod := 25, youngs_mod := 125/2 } = .ok := by
   simp only [epv_tree, epv_cond]
-  have e : ((125 / 2 : ℝ) ^ (2 : ℕ) + 9 * (25 : ℝ) ^ (2 : ℕ) + 2 * (125 / 2) * 25) ^ ((1 : ℝ) / 2) = 225 / 2 :=
-    rpow_half_eq (by norm_num) (by norm_num)
-  simp only [e]; norm_num
+  epv_deton_rpow_half_eval (225 / 2 : ℝ)
+  norm_num
 
 /-- pair (λ, ν): an accepting call returns one positive-definite isotropic material that reproduces the
 two supplied values -/
@@ -260,9 +259,8 @@ theorem modEM_raise (p : BlakeModEM.P) (h : BlakeModEM.outcome p ≠ .ok) :
 /-- non-vacuity: the default material (GPa) is accepted through the pair (E, M) -/
 example : BlakeModEM.outcome { youngs_mod := 125/2, long_mod := 75 } = .ok := by
   simp only [epv_tree, epv_cond]
-  have e : ((125 / 2 : ℝ) ^ (2 : ℕ) + 9 * (75 : ℝ) ^ (2 : ℕ) - 10 * (125 / 2) * 75) ^ ((1 : ℝ) / 2) = 175 / 2 :=
-    rpow_half_eq (by norm_num) (by norm_num)
-  simp only [e]; norm_num
+  epv_deton_rpow_half_eval (175 / 2 : ℝ)
+  norm_num
 
 /-- pair (ν, K): an accepting call returns one positive-definite isotropic material that reproduces the
 two supplied values -/
